@@ -523,7 +523,7 @@ func c16Expected(seq []byte, ut, ht uint32) []c16cb {
 }
 
 func c16Threshold(c *lab.Ctx) {
-	c.Rule("the real health checker paced by a scripted session (so the result sequence is exact): every sequence over {ok,fail} of length L plus sampled sequences with timeouts, x thresholds (1..3)^2; callbacks (changed, healthy) and Host.Health() after each result vs the threshold automaton; distinct = (sequence, thresholds)")
+	c.Rule("the real health checker paced by a scripted session (so the result sequence is exact): every sequence over {ok,fail} of length L plus sampled sequences with timeouts, x thresholds (1..3)^2, one quarter of them again with the outlier-ejection condition set on the host for a PRNG-chosen stretch of the sequence; callbacks (changed, healthy) and Host.Health() after each result vs the threshold automaton; distinct = (sequence, thresholds)")
 	factory := &c16Factory{scripts: map[string]*c16Script{}}
 	healthcheck.RegisterSessionFactory("verif-script", factory)
 	rng := c.Rand("threshold")
@@ -553,12 +553,19 @@ func c16Threshold(c *lab.Ctx) {
 	type job struct {
 		seq    []byte
 		ut, ht uint32
+		// another condition (outlier ejection) is set on the host before result #of and cleared before result #ot (-1: never):
+		// the active checker's transitions and its 'changed' reports must not depend on it, Host.Health() must
+		of, ot int
 	}
 	var jobs []job
 	for _, s := range seqs {
 		for ut := uint32(1); ut <= 3; ut++ {
 			for ht := uint32(1); ht <= 3; ht++ {
-				jobs = append(jobs, job{s, ut, ht})
+				jobs = append(jobs, job{s, ut, ht, -1, -1})
+				if rng.Intn(4) == 0 {
+					of := rng.Intn(len(s))
+					jobs = append(jobs, job{s, ut, ht, of, of + 1 + rng.Intn(len(s)-of+1)})
+				}
 			}
 		}
 	}
@@ -588,8 +595,13 @@ func c16Threshold(c *lab.Ctx) {
 		var mu sync.Mutex
 		recs := map[string]*rec{}
 		factory.mu.Lock()
+		plan := map[string]job{}
 		for i, j := range group {
 			hosts[i] = c16Host("thr")
+			plan[hosts[i].AddressString()] = j
+			if j.of == 0 {
+				hosts[i].SetHealthFlag(api.FAILED_OUTLIER_CHECK)
+			}
 			_ = info
 			scripts[i] = &c16Script{results: j.seq, tmo: make(chan struct{}, 1), done: make(chan struct{}), release: make(chan struct{})}
 			factory.scripts[hosts[i].AddressString()] = scripts[i]
@@ -618,6 +630,15 @@ func c16Threshold(c *lab.Ctx) {
 			if r != nil {
 				r.cbs = append(r.cbs, c16cb{changed, healthy})
 				r.health = append(r.health, host.Health())
+				// the other condition changes between two results (this callback runs in the checker's goroutine)
+				if j := plan[host.AddressString()]; j.of >= 0 {
+					if len(r.cbs) == j.of {
+						host.SetHealthFlag(api.FAILED_OUTLIER_CHECK)
+					}
+					if len(r.cbs) == j.ot {
+						host.ClearHealthFlag(api.FAILED_OUTLIER_CHECK)
+					}
+				}
 			}
 			mu.Unlock()
 		})
@@ -667,8 +688,9 @@ func c16Threshold(c *lab.Ctx) {
 						bad = fmt.Sprintf("result #%d (%c): callback (changed=%v healthy=%v), automaton (changed=%v healthy=%v)", k, j.seq[k], r.cbs[k].changed, r.cbs[k].healthy, exp[k].changed, exp[k].healthy)
 						break
 					}
-					if r.health[k] == unhealthy {
-						bad = fmt.Sprintf("result #%d (%c): Host.Health()=%v, automaton unhealthy=%v", k, j.seq[k], r.health[k], unhealthy)
+					ejected := j.of >= 0 && j.of <= k && k < j.ot
+					if r.health[k] == (unhealthy || ejected) {
+						bad = fmt.Sprintf("result #%d (%c): Host.Health()=%v, automaton unhealthy=%v, other condition set=%v", k, j.seq[k], r.health[k], unhealthy, ejected)
 						break
 					}
 				}
@@ -676,8 +698,11 @@ func c16Threshold(c *lab.Ctx) {
 			if bad == "" {
 				if !solo {
 					c.Eval(1)
-					c.Distinct(fmt.Sprintf("%s|%d|%d", j.seq, ut, ht))
+					c.Distinct(fmt.Sprintf("%s|%d|%d|%d-%d", j.seq, ut, ht, j.of, j.ot))
 					c.Count("check-results", int64(len(j.seq)))
+					if j.of >= 0 {
+						c.Count("sequences-with-another-condition", 1)
+					}
 				}
 				continue
 			}
@@ -725,8 +750,8 @@ func c16Threshold(c *lab.Ctx) {
 					if rep == 3 {
 						confirmed++
 						c.Violation("threshold-automaton", "C16/threshold/callback-mismatch",
-							fmt.Sprintf("results %s with unhealthy_threshold=%d healthy_threshold=%d: %s", j.seq, j.ut, j.ht, lastBad),
-							map[string]interface{}{"sequence": string(j.seq), "unhealthy_threshold": j.ut, "healthy_threshold": j.ht, "detail": lastBad})
+							fmt.Sprintf("results %s with unhealthy_threshold=%d healthy_threshold=%d (outlier condition set before result #%d, cleared before #%d): %s", j.seq, j.ut, j.ht, j.of, j.ot, lastBad),
+							map[string]interface{}{"sequence": string(j.seq), "unhealthy_threshold": j.ut, "healthy_threshold": j.ht, "other_condition_from": j.of, "other_condition_to": j.ot, "detail": lastBad})
 					} else {
 						c.Inconclusive("threshold mismatch not reproducible solo")
 					}
